@@ -98,9 +98,12 @@ package messageview
 // Readers over the snapshot (assumed: they read the snapshot buffer only).
 // bodyFramed: the reader handed out last still delivers the chunk framing of the snapshot (the snapshot stores a
 // chunked body in chunked form; only the Decode option removes the framing).
+// bodyDecoded: the reader handed out last undoes the content coding (gzip / deflate) of the body, i.e. the Decode option
+// was given.
 //@ ghost var bodyFramed bool
+//@ ghost var bodyDecoded bool
 //@ func (*MessageView).BodyReader
 //@   trusted
-//@   modifies bodyFramed
+//@   modifies bodyFramed, bodyDecoded
 //@   ensures (result1 == nil) == (result0 != nil)
-//@   ensures bodyFramed == (mv.chunked && len(opts) == 0)
+//@   ensures bodyFramed == (mv.chunked && len(opts) == 0) && bodyDecoded == (len(opts) > 0)
